@@ -14,7 +14,8 @@ Requests
 * `eq same T v w` → `e p`   (`==` result, packed values equal)
 * `script ((cls T)…) (op…)` → one snapshot per op: `((slot v…)…)` visible leaf values of every slot, or `(err Class)` (stops)
     ops: `(new slot cls v)` `(clone slot src)` `(alias slot src)` `(imatmul dst src)` `(ilshift dst src)`
-         `(flip slot)` `(wleaf slot k x)` (`leaf k @= x`) `(nbleaf slot k x)` (`leaf k <<= x`)
+         `(flip slot)` `(wleaf slot k x)` (`leaf k @= x`) `(wslice slot k lo hi x)` (`leaf k[lo:hi] = x`)
+         `(nbleaf slot k x)` (`leaf k <<= x`)
 -/
 namespace PV.Driver.BitStruct
 open PV PV.BitStruct
@@ -97,6 +98,12 @@ def step (classes : List (Nat × Ty)) (s : St) : Sexp → Option (Except Err St)
       let c ← leafId id (← k.nat?)
       let x ← x.int?
       some ((liftB (PV.Bits.imatmul (s.heap.cell c).cur (.int x))).map fun b =>
+        { s with heap := s.heap.upd c { (s.heap.cell c) with cur := b } })
+  | .list [.atom "wslice", d, k, lo, hi, x] => do
+      let (_, id) ← s.get (← d.nat?)
+      let c ← leafId id (← k.nat?)
+      let lo ← lo.int?; let hi ← hi.int?; let x ← x.int?
+      some ((liftB (PV.Bits.setSlice (s.heap.cell c).cur (some lo) (some hi) none (.int x))).map fun b =>
         { s with heap := s.heap.upd c { (s.heap.cell c) with cur := b } })
   | .list [.atom "nbleaf", d, k, x] => do
       let (_, id) ← s.get (← d.nat?)
